@@ -30,7 +30,7 @@ import math
 import numpy as np
 
 from vmc import common
-from vmc.choice import Ctx, Explorer, Horizon, check_determinism
+from vmc.choice import Ctx, Horizon, check_determinism
 from vmc.parallel import run_shards, shard
 from vmc.report import Broken, Check
 from vmc.seams import ScriptedUniform, patched
@@ -856,6 +856,8 @@ def run_distances(chk, cl, cells, P, n, ctype, r, rot, case):
 
             def answer(_):
                 k[0] += 1
+                if k[0] > 2 * NDIR * (3 * n + 4):
+                    raise Horizon("rejection loop of Cluster.add_random_users never accepts a default draw")
                 return DEFAULTS[(k[0] - 1) % len(DEFAULTS)]
 
             su = ScriptedUniform(answer)
